@@ -162,7 +162,7 @@ Inductive cres :=
 | CSome (pre : list st) (r : res) (post : list st) (evs : list ev).
 
 (* [complete pi s]: the awaitable pending at pi (relative to s) completes *)
-Fixpoint complete (pi : pos) (s : st) : option (res * list ev) :=
+Fixpoint complete (pi : pos) (s : st) {struct s} : option (res * list ev) :=
   match s with
   | SPend n =>
       match pi with
